@@ -6,6 +6,7 @@ verus! {
 //@include prelude/std_assumed.rs
 //@struct file=src/algebra/csc/core.rs name=CscMatrix
 //@include units/inc/csc_colcount_specs.rs
+//@enum file=src/qdldl/qdldl.rs name=QDLDLError rules=R12 derive="PartialEq, Eq, Clone, Copy, Structural"
 //@enum file=src/algebra/error_types.rs name=SparseFormatError rules=R12 derive="PartialEq, Eq, Clone, Copy, Structural"
 
 // well-formed encoding as far as the structural operations need it (monotone column pointers from 0 to nnz)
@@ -663,6 +664,11 @@ it3
             proof { assert(self.nzval@ =~= A0.nzval@.update(gp, value)); assert(set_entry_post(A0, *self, gr, gc, value, gp)); }
 //@end
 
+//@fn file=src/algebra/csc/core.rs in="ShapedMatrix for CscMatrix<T>" name=is_square rules=R1 ret=r
+//@contract
+    ensures r == (self.m == self.n)
+//@end
+
 //@fn file=src/algebra/csc/core.rs in="impl<T> CscMatrix<T>" name=is_triu rules=R1,R21,R5 ret=r
 //@contract
     requires colptr_wf(*self),
@@ -700,6 +706,27 @@ it1
 //@end
 
 }
+
+// ---- QDLDL input validation (C12: "non-square, non-upper-triangular or empty-column inputs are reported as errors") ----
+pub open spec fn is_upper(A: CscMatrix<F>) -> bool { forall|c: int, k: int| #[trigger] in_col(A, k, c) ==> A.rowval@[k] <= c }
+pub open spec fn no_empty_col(A: CscMatrix<F>) -> bool { forall|c: int| 0 <= c < A.colptr@.len() - 1 ==> #[trigger] A.colptr@[c] < A.colptr@[c + 1] }
+//@fn file=src/qdldl/qdldl.rs name=check_structure rules=R1,R21 ret=r
+//@contract
+    requires colptr_wf(*A),
+    ensures
+        r is Ok <==> (A.m == A.n && is_upper(*A) && no_empty_col(*A)),
+        r matches Err(e) ==> {
+            &&& (e == QDLDLError::IncompatibleDimension <==> A.m != A.n)
+            &&& (e == QDLDLError::NotUpperTriangular <==> A.m == A.n && !is_upper(*A))
+            &&& (e == QDLDLError::EmptyColumn <==> A.m == A.n && is_upper(*A) && !no_empty_col(*A)) },
+//@iter 1
+it
+//@loop 1
+        invariant
+            r21_s1@ == A.colptr@, it.seq().len() == (if r21_s1@.len() >= 1 { r21_s1@.len() - 1 } else { 0 }), range_from(it.seq(), 1),
+            r21_k1 ==> forall|i: int| 0 <= i < it.index@ ==> #[trigger] A.colptr@[i] < A.colptr@[i + 1],
+            !r21_k1 ==> exists|i: int| 0 <= i < A.colptr@.len() - 1 && #[trigger] A.colptr@[i] >= A.colptr@[i + 1],
+//@end
 pub open spec fn range_from(sq: Seq<usize>, lo: int) -> bool { forall|k: int| 0 <= k < sq.len() ==> #[trigger] sq[k] == lo + k }
 } // verus!
 fn main() {}
